@@ -16,6 +16,12 @@ Definition pend := list (mid * Z).          (* ack id, payload bytes *)
 
 Record fcl := mkFc { fm : Z; fb : Z }.       (* max outstanding messages / bytes *)
 
+(* services/grpc-subscriber.go effectiveFlowControl: a StreamingPull client may leave either
+   limit unset (<= 0); it then takes the server's default, independently of the other *)
+Definition effective_fc (max_messages max_bytes : Z) : fcl :=
+  mkFc (if max_messages <=? 0 then 1000 else max_messages)
+       (if max_bytes <=? 0 then 10 * 1024 * 1024 else max_bytes).
+
 Definition ids (p : pend) : list mid := map fst p.
 Definition used_msgs (p : pend) : Z := Z.of_nat (length p).
 Definition used_bytes (p : pend) : Z := fold_right (fun x a => snd x + a) 0 p.
